@@ -22,12 +22,11 @@ package proxy
 //@   props C05 C01
 //@   ensures result != nil && fresh(result) && result.wf() && result.size == 0
 //@   ensures len(result.entries) == max(capacity, 1)
-//@   requires capacity <= MaxAlloc
 //@   assigns nothing
 
 //@ contract (*proxyIDRingBuffer).ensureCapacity
 //@   props C05 C01
-//@   requires b.wf() && (b.size == len(b.entries) ==> 2 * len(b.entries) <= MaxAlloc)
+//@   requires b.wf()
 //@   ensures  @wf: b.wf() && b.size < len(b.entries)
 //@   ensures  @scalars: b.size == old(b.size) && b.startProxyID == old(b.startProxyID) && b.maxSize == old(b.maxSize)
 //@   ensures  @view: forall j int :: 0 <= j && j < b.size ==> b.at(j) == old(b.at(j))
@@ -43,8 +42,6 @@ package proxy
 //@   props C05 C01
 //@   requires b.wf() && 1 <= proxyID && proxyID < MaxID
 //@   requires b.size > 0 ==> proxyID >= b.startProxyID + int64(b.size)
-//@   requires b.size > 0 ==> 4 * (proxyID - b.startProxyID + 2) <= MaxAlloc
-//@   requires 4 * len(b.entries) <= MaxAlloc
 //@   ensures  @wf: b.wf()
 //@   ensures  @first: old(b.size) == 0 ==> b.startProxyID == proxyID && b.size == 1
 //@   ensures  @size: old(b.size) > 0 ==> b.startProxyID == old(b.startProxyID) && int64(b.size) == proxyID - old(b.startProxyID) + 1
@@ -54,7 +51,6 @@ package proxy
 //@   assigns  b.entries, b.head, b.size, b.maxSize, b.startProxyID, elems(b.entries)
 //@   loop 1 invariant b.wf() && b.startProxyID == old(b.startProxyID) && old(b.size) <= b.size
 //@   loop 1 invariant expected == b.startProxyID + int64(b.size) && expected <= proxyID
-//@   loop 1 invariant len(b.entries) <= old(len(b.entries)) || len(b.entries) <= 2 * b.size
 //@   loop 1 invariant b.entries == old(b.entries) || fresh(b.entries)
 //@   loop 1 invariant forall j int :: 0 <= j && j < old(b.size) ==> b.at(j) == old(b.at(j))
 //@   loop 1 invariant forall j int :: old(b.size) <= j && j < b.size ==> hole(b.at(j)) && b.at(j).sourceTask == 0
@@ -328,3 +324,57 @@ package proxy
 //@              auth.allowedIn(s.namespaceAccess, newNamespaceList[k].NamespaceInfo.Name)
 //@   loop 1 invariant forall k int :: { response.Namespaces[k] } 0 <= k && k < len(response.Namespaces) ==> response.Namespaces[k] != nil && response.Namespaces[k].NamespaceInfo != nil
 //@   loop 1 invariant response != nil && s.namespaceAccess != nil && fresh(newNamespaceList)
+
+// ---------------------------------------------------------------------------------------------
+// C02 (sender side) / C01 (ring hand-off): id rewrite into the proxy id space on one target stream.
+// Ghost history of the stream: lastTask = last task id sent, lastHigh = largest exclusive high watermark sent.
+// ---------------------------------------------------------------------------------------------
+
+//@ ghost proxyStreamSender.lastTask int64
+//@ ghost proxyStreamSender.lastHigh int64
+//@ func msgsOf(r *adminservice.StreamWorkflowReplicationMessagesResponse) *replicationv1.WorkflowReplicationMessages =
+//@     cast(r.Attributes, "*adminservice.StreamWorkflowReplicationMessagesResponse_Messages").Messages
+
+// State guarded by the sender's mutex. Only sendReplicationMessages allocates ids (rely: the counter and the ring
+// pointer are stable while the lock is free; the acknowledgement side may only discard from the front, which keeps
+// the end of the ring at nextProxyTaskID+1). A-mem: ids stay below 2^61.
+//@ guards proxyStreamSender.mu: nextProxyTaskID, idRing, *idRing, prevAckBySource, lastMsgSendTime, lastSentWatermark
+//@   lockinv self.idRing != nil && self.idRing.wf() && self.nextProxyTaskID >= 0 &&
+//@           (self.idRing.size > 0 ==> self.idRing.startProxyID + int64(self.idRing.size) == self.nextProxyTaskID + 1) &&
+//@           self.lastSentWatermark <= self.nextProxyTaskID + 1
+//@   rely self.nextProxyTaskID == old(self.nextProxyTaskID) && self.idRing == old(self.idRing) && self.nextProxyTaskID < 2305843009213693952
+
+//@ extern quiet (channel.ShutdownOnce).IsShutdown
+//@ extern quiet (channel.ShutdownOnce).Channel
+//@ extern quiet (*time.Ticker).Stop
+//@ extern time.NewTicker(d)
+//@   ensures result != nil
+//@   assigns nothing
+//@ extern quiet (*proxyStreamSender).buildSenderDebugSnapshot
+
+// Emit-precondition of every message put on the target stream (taken from the property statement): task ids
+// strictly increase and continue after the last id sent; a task-bearing message carries an exclusive high
+// watermark above its last id and above every earlier watermark.
+//@ extern (adminservice.AdminService_StreamWorkflowReplicationMessagesServer).Send@(*proxyStreamSender).sendReplicationMessages(stream, m)
+//@   requires @ids_increase: msgsOf(m) != nil ==> forall k int :: { msgsOf(m).ReplicationTasks[k] } 0 <= k && k < len(msgsOf(m).ReplicationTasks) ==>
+//@              msgsOf(m).ReplicationTasks[k] != nil && msgsOf(m).ReplicationTasks[k].SourceTaskId > ite(k == 0, s.lastTask, msgsOf(m).ReplicationTasks[k - 1].SourceTaskId)
+//@   requires @high_above: msgsOf(m) != nil && len(msgsOf(m).ReplicationTasks) > 0 ==>
+//@              msgsOf(m).ExclusiveHighWatermark > msgsOf(m).ReplicationTasks[len(msgsOf(m).ReplicationTasks) - 1].SourceTaskId && msgsOf(m).ExclusiveHighWatermark > s.lastHigh
+//@   ensures s.lastTask == ite(len(msgsOf(m).ReplicationTasks) > 0, msgsOf(m).ReplicationTasks[len(msgsOf(m).ReplicationTasks) - 1].SourceTaskId, old(s.lastTask))
+//@   ensures s.lastHigh == max(old(s.lastHigh), msgsOf(m).ExclusiveHighWatermark)
+//@   assigns s.lastTask, s.lastHigh
+
+// Messages on the sender's queue: a response object with distinct, non-nil task objects (A-temporal: a batch
+// never contains the same task object twice) and a non-zero source shard.
+//@ chaninv RoutedMessage v: v.Resp != nil && !(v.SourceShard.ClusterID == 0 && v.SourceShard.ShardID == 0) &&
+//@        (msgsOf(v.Resp) != nil ==> (forall k int :: { msgsOf(v.Resp).ReplicationTasks[k] } 0 <= k && k < len(msgsOf(v.Resp).ReplicationTasks) ==> msgsOf(v.Resp).ReplicationTasks[k] != nil) &&
+//@           (forall a int, c int :: 0 <= a && a < c && c < len(msgsOf(v.Resp).ReplicationTasks) ==> msgsOf(v.Resp).ReplicationTasks[a] != msgsOf(v.Resp).ReplicationTasks[c]))
+
+//@ contract (*proxyStreamSender).sendReplicationMessages
+//@   props C02 C01
+//@   requires s.lastTask >= 0 && s.lastHigh >= 0 && s.lastTask <= s.nextProxyTaskID && s.lastHigh <= s.nextProxyTaskID + 1
+//@   loop 1 invariant s.lastTask >= 0 && s.lastHigh >= 0 && s.lastTask <= s.nextProxyTaskID && s.lastHigh <= s.nextProxyTaskID + 1
+//@   loop 3 invariant s.idRing != nil && s.idRing.wf() && s.nextProxyTaskID == entry(s.nextProxyTaskID) + int64($i)
+//@   loop 3 invariant s.idRing.size > 0 ==> s.idRing.startProxyID + int64(s.idRing.size) == s.nextProxyTaskID + 1
+//@   loop 3 invariant forall k int :: { m.Messages.ReplicationTasks[k] } 0 <= k && k < $i ==> m.Messages.ReplicationTasks[k].SourceTaskId == entry(s.nextProxyTaskID) + int64(k) + 1
+//@   loop 3 invariant (cap(originalIDs) == 0 || newSince(originalIDs)) && (cap(proxyIDs) == 0 || newSince(proxyIDs))
